@@ -10,7 +10,8 @@ import "sync/atomic"
 var verifYieldFnLT atomic.Pointer[func(point string)]
 
 // VerifSetYieldLT installs (or, with nil, removes) the function called at the
-// yield points "GetOrAddFeature.miss", "UseCase.copied" and "UseCase.store".
+// yield points "GetOrAddFeature.miss", "UseCase.copied", "UseCase.store" and
+// "DiscoveryRead.entities".
 func VerifSetYieldLT(f func(point string)) {
 	if f == nil {
 		verifYieldFnLT.Store(nil)
